@@ -1,6 +1,7 @@
 """C15: serialisation — implementation round trips, and the written dictionaries
 compared with the model's to_dict of the exported graphs."""
 import random
+import zlib
 
 from . import common, export, gen_graphs, snap, stages
 
@@ -9,6 +10,9 @@ TCODE = {"basic": 100, "python_bytecode": 100, "synth_asign": 20, "region": 50,
          "synth_tail": export.CLS["SyntheticTail"], "synth_exit": export.CLS["SyntheticExit"],
          "synth_return": export.CLS["SyntheticReturn"], "synth_exit_latch": export.CLS["SyntheticExitingLatch"],
          "synth_exit_branch": export.CLS["SyntheticExitBranch"], "synth_fill": export.CLS["SyntheticFill"]}
+
+
+MUTANTS = 2
 
 
 def dict_rows(d, tabs):
@@ -35,6 +39,105 @@ def dict_rows(d, tabs):
         rows.append([80, ids[name], TCODE[ty]] + L([ids[t] for t in d["edges"][name]])
                     + L([ids[t] for t in d["backedges"][name]]) + L(extra))
     return rows
+
+
+def fromdict_text(label, orig, d, mutate_seed=None):
+    """One instance for Serial2.run_fromdict: what from_dict builds from dictionary d
+    (or that it raises), followed by d.  Names are interned over d and the result."""
+    import copy
+    import sys
+
+    from numba_scfg.core.datastructures.scfg import SCFG
+
+    d = copy.deepcopy(d)
+    lim = sys.getrecursionlimit()
+    try:
+        sys.setrecursionlimit(400)
+        try:
+            sc, _ = SCFG.from_dict(copy.deepcopy(d))
+        finally:
+            sys.setrecursionlimit(lim)
+    except (KeyError, AssertionError, TypeError, RecursionError, AttributeError, IndexError) as e:
+        sc = None
+        exc = type(e).__name__
+    # every name the dictionary mentions must be interned, also those the result lacks
+    extra_names = set(d["blocks"])
+    for k in d["blocks"]:
+        extra_names.update(d["edges"].get(k, ()))
+        extra_names.update(d["backedges"].get(k, ()) or ())
+        info = d["blocks"][k]
+        for f in ("header", "exiting", "parent_region"):
+            if isinstance(info.get(f), str):
+                extra_names.add(info[f])
+        extra_names.update(info.get("contains", ()))
+        if "branch_value_table" in info:
+            extra_names.update(info["branch_value_table"].values())
+    if sc is None:
+        names = {s_: i + 1 for i, s_ in enumerate(sorted(extra_names))}
+        tabs = {"names": names, "vars": _vars_of(d), "payloads": _payloads_of(d)}
+        rows = [[118], [7]] + dict_rows(d, tabs)
+        return "#%s\n" % label + "\n".join(" ".join(map(str, r)) for r in rows) + "\n0\n", exc
+    rows, tabs = export.export(orig, sc, extra_names=extra_names, extra_vars=_vars_of(d), extra_payloads=_payloads_of(d))
+    rows = [r for r in rows if r[0] != 1]
+    dr = dict_rows(d, tabs)
+    return "#%s\n" % label + "\n".join(" ".join(map(str, r)) for r in [[118]] + rows + dr) + "\n0\n", None
+
+
+def _vars_of(d):
+    vs = set()
+    for info in d["blocks"].values():
+        if "variable" in info:
+            vs.add(info["variable"])
+        vs.update(info.get("variable_assignment", {}).keys())
+    return {s_: i + 1 for i, s_ in enumerate(sorted(vs))}
+
+
+def _payloads_of(d):
+    ps = set()
+    for info in d["blocks"].values():
+        if info["type"] == "basic":
+            ps.add("basic")
+        elif info["type"] == "python_bytecode":
+            ps.add("bc:%r:%r" % (info["begin"], info["end"]))
+    return {s_: i + 1 for i, s_ in enumerate(sorted(ps))}
+
+
+def mutate(d, rng):
+    """A dictionary that differs from d in one respect, using only names d already holds."""
+    import copy
+
+    d = copy.deepcopy(d)
+    keys = sorted(d["blocks"])
+    regions = [k for k in keys if d["blocks"][k]["type"] == "region"]
+    kind = rng.choice(["drop", "retarget", "uncontain", "header", "exiting", "parent", "backedge"])
+    if kind == "drop":
+        k = rng.choice(keys)
+        for part in ("blocks", "edges", "backedges"):
+            d[part].pop(k, None)
+    elif kind == "retarget":
+        cands = [k for k in keys if d["edges"][k]]
+        if cands:
+            k = rng.choice(cands)
+            e = list(d["edges"][k])
+            e[rng.randrange(len(e))] = rng.choice(keys)
+            d["edges"][k] = e
+    elif kind == "backedge":
+        k = rng.choice(keys)
+        d["backedges"][k] = list(d["backedges"].get(k) or []) + [rng.choice(keys)]
+    elif regions:
+        r = rng.choice(regions)
+        info = d["blocks"][r]
+        if kind == "uncontain" and info["contains"]:
+            c = list(info["contains"])
+            c.pop(rng.randrange(len(c)))
+            info["contains"] = c
+        elif kind == "header" and info["contains"]:
+            info["header"] = rng.choice(info["contains"])
+        elif kind == "exiting" and info["contains"]:
+            info["exiting"] = rng.choice(info["contains"])
+        elif kind == "parent":
+            info["parent_region"] = rng.choice(regions)
+    return kind, d
 
 
 def canon(sc):
@@ -86,6 +189,17 @@ def export_item(item):
             meta["failures"].append({"stage": k, "what": "yaml", "reason": repr(e)[:200]})
         one(k, "w", scfg, d)
         one(k, "r", sc2, d2)
+        # the reader itself against its model: the dictionary just written, and altered ones
+        rng = random.Random(zlib.crc32(repr((k, sorted(d["blocks"]), sorted(d["edges"].items()))).encode()))
+        todo = [("valid", d)] + [mutate(d, rng) for _ in range(MUTANTS)]
+        for what, dd in todo:
+            try:
+                txt, exc = fromdict_text("%df-%s" % (k, what), orig, dd)
+            except export.ExportError as e:
+                meta.setdefault("fromdict_skipped", []).append("%s: %s" % (what, str(e)[:80]))
+                continue
+            texts.append(txt)
+            meta.setdefault("fromdict", []).append([what, exc])
 
     meta["exc"] = stages.run_stages(sc, on_stage)
     return "".join(texts) if texts else None, meta
